@@ -201,3 +201,47 @@ func hasPrefixAny(s string, pre ...string) bool {
 	}
 	return false
 }
+
+// errorReturnsDeep lists the returns of fn that can hand back a non-nil error, where a return that merely
+// propagates the error of a local closure / unseen helper (`if err := f.helper(…); err != nil { return err }`) is
+// replaced by that helper's own error returns (two levels). Rules that classify rejections by their guards can
+// then work where the rejection is decided.
+func errorReturnsDeep(fn *ssa.Function) []*ssa.Return {
+	return errorReturnsDeepN(fn, 0)
+}
+
+func errorReturnsDeepN(fn *ssa.Function, depth int) []*ssa.Return {
+	var out []*ssa.Return
+	for _, r := range an.Returns(fn) {
+		if len(r.Results) == 0 {
+			continue
+		}
+		errOp := r.Results[len(r.Results)-1]
+		if !an.IsErrorType(errOp.Type()) || provablyNilAt(errOp, r) {
+			continue
+		}
+		propagated := false
+		if depth < 2 {
+			for _, v := range an.ValuesAt(errOp) {
+				var call *ssa.Call
+				switch x := v.(type) {
+				case *ssa.Call:
+					call = x
+				case *ssa.Extract:
+					call, _ = x.Tuple.(*ssa.Call)
+				}
+				if call == nil {
+					continue
+				}
+				if h := an.TransparentCallee(call); h != nil && h != fn {
+					propagated = true
+					out = append(out, errorReturnsDeepN(h, depth+1)...)
+				}
+			}
+		}
+		if !propagated {
+			out = append(out, r)
+		}
+	}
+	return out
+}
